@@ -28,6 +28,7 @@ PROPS = {
         "classes": r"^(?!step\.early).*" + SEM + r"|^(step|prologue)\.no-panic|^(?!step\.early).*" + STRUCT,
         "lemmas": lambda n: True,
         "witness": "closed",
+        "rule_level": True,
         "explanation": "bounded inductive verification: the semi-naive invariant INV-sn (every all-old match of every stage of the "
                        "reference semantics has its conclusion present or pending), INV-age and the bookkeeping invariants are inductive "
                        "over new(), every public mutator, the prologue and one arbitrary loop iteration of the generated close_until; "
@@ -167,6 +168,12 @@ def main():
     harness = N.NativeHarness(scratch, repo=P.REPO)
     for name, (su, sch) in schemas.items():
         harness.add(name, su.rs_path, su.prog, sch)
+    rl_setups = {}
+    if cfg.get("rule_level"):
+        for name, pinfo in sorted(corpus.rule_level_only.items()):
+            su2 = L.Setup(pinfo["rs"], pinfo["eql"], 2, repo=P.REPO)
+            rl_setups[name] = (su2, M.Schema(su2.prog))
+            harness.add(name, su2.rs_path, su2.prog, rl_setups[name][1])
     val_bad = []
     val_n = 0
     val_samples = []
@@ -237,6 +244,32 @@ def main():
                        "lemmas": sorted(set(r["lemma"][len("effects."):] for r in rs if r["lemma"].startswith("effects."))),
                        "plans": plans, "timeout": timeout, "budget": 240 if tier == "quick" else 1800,
                        "scratch": scratch, "exe": getattr(harness, "exe", None)})
+    # C01-R: rule-level completeness on canonical databases (any model size), natively replayed
+    canon_results = []
+    if cfg.get("rule_level"):
+        import canon
+        import multiprocessing as mp
+        ctasks = []
+        allp = dict(corpus.programs)
+        allp.update(corpus.rule_level_only)
+        for name, pinfo in sorted(allp.items()):
+            ctasks.append({"program": name, "rs": pinfo["rs"], "eql": pinfo["eql"], "terminates": corpus.terminates(name)})
+        with mp.get_context("fork").Pool(min(16, len(ctasks)), maxtasksperchild=4) as pool:
+            canon_results = pool.map(canon.check_program, ctasks, chunksize=1)
+        for r in canon_results:
+            name = r["program"]
+            su2, sch2 = schemas.get(name) or rl_setups[name]
+            if r["status"] != "ok":
+                unconfirmed.append((name, ["rule-level check"], [r.get("reason", "")[:300]]))
+            for v in r["violations"]:
+                ok, obs = canon.replay(harness, name, sch2, su2.prog, v)
+                lab = "rule-level: rule %s stage %d does not derive %s on the canonical database of its premise (%d variables)" % (v["rule"], v["stage"], v["missing"], v["variables"])
+                if ok:
+                    path = P.save_replay(prop, name + "_rule_" + v["rule"], allp[name]["eql"], v["script"] + [v["query"]], [obs], {"rule": v["rule"], "stage": v["stage"], "missing": v["missing"]}, kind="rule-level")
+                    violations.append((name, [lab], path, (v["script"] + [v["query"]], [obs], {})))
+                else:
+                    unconfirmed.append((name, [lab], [obs]))
+        P.log("rule-level check: %d programs, %d stages, %d violations" % (len(canon_results), sum(r["stages"] for r in canon_results), sum(len(r["violations"]) for r in canon_results)))
     sc_results = []
     if cfg.get("selfcomp"):
         import selfcomp as SC
@@ -307,6 +340,11 @@ def main():
         "compiler_build_s": round(build_s, 1),
         "kani_unification": kani,
     }
+    if cfg.get("rule_level"):
+        cov["rule_level_canonical_databases"] = {"programs": len(canon_results), "stages": sum(r["stages"] for r in canon_results),
+                                                 "largest_rule_variables": max([r["max_vars"] for r in canon_results] + [0]),
+                                                 "skipped": [s_ for r in canon_results for s_ in r["skipped"]][:20],
+                                                 "claim": "for every stage: on the canonical database of its premise (one element per variable, all tuples new) the real rule module pushes the conclusion; by the homomorphism theorem for conjunctive queries this holds for matches in models of any size"}
     if cfg.get("selfcomp"):
         cov["self_composition"] = {"programs": len(sc_results), "programs_decided": sorted(r["program"] for r in sc_results if r["status"] == "proved"),
                                    "programs_undecided_within_budget (nothing claimed)": sorted(r["program"] for r in sc_results if r["status"] == "undecided"), "queries": sum(r["queries"] for r in sc_results),
